@@ -257,6 +257,8 @@ func (eapAkaPrime *EapAkaPrime) Unmarshal(rawData []byte) error {
 				}
 				return errors.Wrapf(err, "EAP-AKA' Unmarshal(): read %s attribute/reserved failed", attr.attrType)
 			}
+			// Keep the received reserved bytes: AT_MAC is calculated over the packet as it was sent
+			attr.reserved = binary.BigEndian.Uint16(reserved)
 
 			valLen := 4*attr.length - EapAkaAttrTypeLen - EapAkaAttrLengthLen - EapAkaAttrReservedLen
 			if valLen != 16 {
@@ -378,7 +380,19 @@ func (eapAkaPrime *EapAkaPrime) Unmarshal(rawData []byte) error {
 
 func (eapAkaPrime *EapAkaPrime) initMAC() error {
 	zeros := make([]byte, 16)
-	return eapAkaPrime.SetAttr(AT_MAC, zeros)
+
+	// Only the MAC value is zeroed, reserved bytes of a received AT_MAC stay as they were sent
+	var reserved uint16
+	if oldMAC, ok := eapAkaPrime.attributes[AT_MAC]; ok {
+		reserved = oldMAC.reserved
+	}
+
+	err := eapAkaPrime.SetAttr(AT_MAC, zeros)
+	if err != nil {
+		return err
+	}
+	eapAkaPrime.attributes[AT_MAC].reserved = reserved
+	return nil
 }
 
 func (eapAkaPrime *EapAkaPrime) getAttrsKeys() []EapAkaPrimeAttrType {
